@@ -31,6 +31,9 @@ structure State where
   -- process and load id the length of that log at load time
   writes : Nat → List Nat := fun _ => []   -- row ↦ the processes that saved it, most recent first
   seenAt : Nat → Nat → Nat := fun _ _ => 0 -- process, load id ↦ number of saves of its row at load time
+  -- ghost, for `C16.saves_are_serial`: row ↦ (process, number of the transaction it was in) of every save, most recent
+  -- first; `stamps f` is `writes f` with the transaction numbers added (`C16.stamps_are_writes`)
+  stamps : Nat → List (Nat × Nat) := fun _ => []
 
 def upd2 {α : Type} (f : Nat → Nat → α) (a b : Nat) (v : α) : Nat → Nat → α :=
   fun x y => if x = a ∧ y = b then v else f x y
@@ -50,7 +53,8 @@ def step (s : State) : Ev → Option State
     if s.holder ≠ some p then none
     else if s.loadedIn p id ≠ some (s.txn p) then none      -- THE GUARD: loaded in this very transaction
     else if s.loadedRow p id ≠ some f then none
-    else some { s with writes := fun x => if x = f then p :: s.writes f else s.writes x }
+    else some { s with writes := fun x => if x = f then p :: s.writes f else s.writes x,
+                       stamps := fun x => if x = f then (p, s.txn p) :: s.stamps f else s.stamps x }
 
 def run (s : State) : List Ev → Option State
   | [] => some s
@@ -59,8 +63,8 @@ def run (s : State) : List Ev → Option State
     | none => none
     | some s' => run s' es
 
-/-- Index of the first rejected event (trace replay).  `strict = false` skips the write-lock guard of `begin` (read
-transactions of other processes overlap freely; only their own loads and saves are checked). -/
+/-- Index of the first rejected event (trace replay; real traces are replayed per process, because read transactions of
+different processes overlap freely — mutual exclusion of writers is `SqlTxn`'s subject). -/
 def runIdx (s : State) : List Ev → Nat → Except Nat State
   | [], _ => .ok s
   | e :: es, i =>
